@@ -108,6 +108,7 @@ func buildProperties() []Property {
 			Decides:    "every narrowing conversion of an answer value in Scan is guarded by an exactness/range test with an error edge (sizes from the analysed build, thorough tier repeats with 32-bit int); placeholder arguments never flow into a reader, lexer or parser constructor (they enter the grammar only as finished terms); a term is returned only when the argument queue is empty and the queue is indexed only when non-empty. The destination of each element conversion into a slice is computed per element inside the loop.",
 			NotDecided: "that termOf(v) equals the literal denoting v under every double_quotes setting.",
 			Rules: []RuleDef{
+				{"R-REFLECT-EXPORTED", 2, ruleReflectExported},
 				{"R-INT-CONVERT", 1, ruleIntConvert},
 				{"R-SCAN-FRESH-DEST", 1, ruleScanFreshDest},
 				{"R-NARROWING", 6, ruleNarrowing},
